@@ -34,7 +34,7 @@ class C07(Prop):
     corr_name = ('Exec.Model.run (istep/cstep/wstep/tstep/kstep) vs the real Popen.work_cb/work/_launch_task/'
                  '_watch/_check_running/cancel_task/control_cb/_to_watcher under the line-granular scheduler')
     rule = ('corpus, then sampled schedules (thread weights and exit points drawn from the seed) over scenarios of '
-            '1-3 tasks x {no fault, no launcher, script error, spawn error, error after spawn} x {timeout} x '
+            '1-3 tasks x {no fault, no launcher, script error, spawn error, error after spawn} x {timeout} x {process outlives the kill} x '
             '{0-2 cancel messages}; each schedule is replayed on the real methods and completed fairly; thorough: '
             'additionally every schedule (preemption only before actions on shared state) of the 1-task scenarios and '
             'of 2-task scenarios, enumerated by the model; non-trivial = at least two threads ran a _check_lock '
@@ -44,7 +44,9 @@ class C07(Prop):
         'threads running the real work_cb/_control_cb/_watch/_to_watcher, line-granular sys.settrace scheduler, '
         'recording wrappers for self._tasks, task[\'proc\'], the three locks, the cancel list, the watch queue, '
         'a fake subprocess.Popen/os.killpg and a fake clock; steps compared inside Coq by vm_compute',
-        'modelled, not verified: OS semantics of killpg/wait (a kill of a running process always succeeds), '
+        'modelled, not verified: OS semantics of killpg/wait (a kill ends a running process at once, or -- stubborn '
+        'process -- has no effect and cancel_task blocks in proc.wait() until the process exits by itself; the fake '
+        'wait(timeout=..) expires iff the process still runs when the waiting thread is scheduled next), '
         'script generation and launcher selection (one fallible step), profiling/logging, zmq delivery of '
         'advance()/publish(), the 100-task bulk limit of the watcher, startup_timeout/task_startup_done',
     ]
@@ -66,10 +68,21 @@ class C07(Prop):
         for f in X.FAULTS:
             for to in (False, True):
                 for named in (False, True):
-                    sc = {'batches': [[{'uid': 1, 'fault': f, 'timeout': to}]],
-                          'cancels': [[1]] if named else [], 'exit_codes': {'1': 3}}
-                    for _ in range(2 if tier == 'quick' else 12):
-                        yield dict(sc, sched=gen_sched(rng, sc, rng.randint(4, 40)))
+                    for stub in ((False, True) if f == 'none' else (False,)):
+                        sc = {'batches': [[{'uid': 1, 'fault': f, 'timeout': to, 'stubborn': stub}]],
+                              'cancels': [[1]] if named else [], 'exit_codes': {'1': 3}}
+                        for _ in range(2 if tier == 'quick' else 12):
+                            yield dict(sc, sched=gen_sched(rng, sc, rng.randint(4, 40)))
+        # a process that outlives the kill: the canceling thread (C, T, or the late check in I) sits in proc.wait()
+        for who in ('C', 'T', 'I'):
+            sc = {'batches': [[{'uid': 1, 'fault': 'none', 'timeout': who == 'T', 'stubborn': True},
+                               {'uid': 2, 'fault': 'none', 'timeout': False, 'stubborn': False}]],
+                  'cancels': [[1]] if who != 'T' else [], 'exit_codes': {'1': 3, '2': 0}}
+            pre = ['C', 'C'] + ['I'] * 9 if who == 'I' else ['I'] * 18
+            pre = (['I'] + pre) if who == 'I' else pre
+            for _ in range(3 if tier == 'quick' else 20):
+                mid = [rng.choice([who, who, 'W', 'C', 'T']) for _ in range(rng.randint(6, 20))]
+                yield dict(sc, sched=pre + mid + [['X', 1, 3]] + gen_sched(rng, sc, rng.randint(0, 12)))
         if tier == 'thorough':
             for c in self.enumerated():
                 yield c
@@ -85,6 +98,9 @@ class C07(Prop):
                 jobs.append((sc, [], 300))
                 if f == 'none':
                     jobs.append((sc, P2, 600))
+                    st = {'batches': [[{'uid': 1, 'fault': f, 'timeout': to, 'stubborn': True}]], 'cancels': [[1]],
+                          'exit_codes': {'1': 3}}
+                    jobs.append((st, P2, 500))
         sc2 = {'batches': [[{'uid': 1, 'fault': 'none', 'timeout': False}, {'uid': 2, 'fault': 'none', 'timeout': False}]],
                'cancels': [[2]], 'exit_codes': {'1': 0, '2': 1}}
         jobs.append((sc2, ['I'] * 14, 500))
